@@ -27,6 +27,9 @@ func mkOpts(ic, ig int, kind geometry.IndexKind, rv, sp, dc, ar bool) *geojson.P
 var (
 	optDefault = optSet{"default", nil}
 	optAlt     = optSet{"alt(idx1,rtree,simple,rects)", mkOpts(1, 1, geometry.RTree, false, true, false, true)}
+	// the Circle convention switched off (with and without SimplePoint geometries)
+	optNoCircle       = optSet{optName(mkOpts(64, 64, geometry.QuadTree, false, false, true, false)), mkOpts(64, 64, geometry.QuadTree, false, false, true, false)}
+	optNoCircleSimple = optSet{optName(mkOpts(64, 64, geometry.QuadTree, false, true, true, false)), mkOpts(64, 64, geometry.QuadTree, false, true, true, false)}
 )
 
 func optByName(n string) *geojson.ParseOptions {
@@ -161,7 +164,7 @@ func parseChecked(text string, opts *geojson.ParseOptions) (o geojson.Object, er
 
 // c07One checks one text under one option set; emits at most one failure.
 func c07One(text string, os optSet, emit func(class string, c rt.Case, exp, got string)) (refdoc.Verdict, *refdoc.Obj) {
-	v, ref, why := refdoc.Classify(text)
+	v, ref, why := refdoc.ClassifyOpts(text, os.O != nil && os.O.DisableCircleType)
 	obj, err, pan := parseChecked(text, os.O)
 	mk := func() rt.Case { return rt.Case{Kind: "doc", Op: "parse", Doc: text, Cfg: os.Name} }
 	if pan != "" {
